@@ -211,8 +211,16 @@ func TestC32(t *testing.T) {
 				}
 				time.Sleep(3 * time.Minute) // let timed waits of stopped instances run out (virtual)
 			}()
+			// a quarter of the clusters live on IPv6 addresses (relay envelopes carry the querier's address)
+			v6 := rng.Intn(4) == 0
+			if v6 {
+				counts["clusters_on_ipv6_addresses"]++
+			}
 			for i := 0; i < 3; i++ {
 				x := &node{name: fmt.Sprintf("%s-%d-%d", names[perm[i]], ci, i), ip: fmt.Sprintf("10.32.%d.%d", ci%250, 1+i), proto: protos[rng.Intn(len(protos))], tr: newQTracker()}
+				if v6 {
+					x.ip = net.ParseIP(fmt.Sprintf("fd00:32::%x:%x", ci%4096, 1+i)).String() // canonical text form
+				}
 				if i == 0 && rng.Intn(3) != 0 {
 					x.proto = uint8(4 + rng.Intn(2)) // queries need protocol 4 at the issuer
 				}
@@ -320,15 +328,35 @@ func TestC32(t *testing.T) {
 				if len(m) > 512 {
 					add("metadata-over-limit", fmt.Sprintf("NodeMeta returned %d bytes", len(m)), nil)
 				}
-				for _, v := range nodes {
-					if v != o {
-						v.nd.NotifyUpdate(cluster.FakeNode(o.name, o.ip, 7946, m))
+				how := "update"
+				if rng.Intn(3) == 0 {
+					// the new metadata does not arrive as an update: the member went down without leaving
+					// and came back with it (memberlist reports a member that returns from the dead as a join)
+					how = "rejoin after failure"
+					counts["tag_sets_delivered_by_rejoin_after_failure"]++
+					for _, v := range nodes {
+						if v != o {
+							v.nd.NotifyLeave(cluster.FakeNode(o.name, o.ip, 7946, nil))
+						}
+					}
+					synctest.Wait()
+					time.Sleep([]time.Duration{0, 5 * time.Second, 2 * time.Minute}[rng.Intn(3)])
+					for _, v := range nodes {
+						if v != o {
+							v.nd.NotifyJoin(cluster.FakeNode(o.name, o.ip, 7946, m))
+						}
+					}
+				} else {
+					for _, v := range nodes {
+						if v != o {
+							v.nd.NotifyUpdate(cluster.FakeNode(o.name, o.ip, 7946, m))
+						}
 					}
 				}
 				synctest.Wait()
 				for _, v := range nodes {
 					if v != o {
-						checkTags(v, o, o.tags, "update")
+						checkTags(v, o, o.tags, how)
 					}
 				}
 			}
